@@ -3,6 +3,7 @@ package coder
 import (
 	"encoding/binary"
 	"errors"
+	stdmath "math"
 
 	"github.com/plgd-dev/go-coap/v3/message"
 	"github.com/plgd-dev/go-coap/v3/message/codes"
@@ -193,7 +194,13 @@ func (c *Coder) DecodeHeader(data []byte, h *MessageHeader) (int, error) {
 		opLen = MessageLength15Base + int(extLen)
 	}
 
-	h.MessageLength = hdrOff + 1 + uint32(tkl) + math.CastTo[uint32](opLen)
+	// The declared length may not fit into 32 bits (extended length up to 2^32-1 plus 65805):
+	// saturate instead of wrapping around, so that a size limit rejects the frame.
+	messageLength := uint64(hdrOff) + 1 + uint64(tkl) + uint64(opLen)
+	if messageLength > stdmath.MaxUint32 {
+		messageLength = stdmath.MaxUint32
+	}
+	h.MessageLength = uint32(messageLength)
 	if len(data) < 1 {
 		return -1, message.ErrShortRead
 	}
